@@ -1580,10 +1580,12 @@ def _fixStringValue(s, p):
             while j < 4 and i + j < len(s):
                 c = s[i + j]
                 c = c.upper()
-                if not c.isdigit() and c not in 'ABCDEF':
+                # Only the ASCII digits are hex digits (str.isdigit() is
+                # also true for digits of other scripts, e.g. U+00B2)
+                if c not in '0123456789ABCDEF':
                     break
                 hexc <<= 4
-                if c.isdigit():
+                if c in '0123456789':
                     hexc |= ord(c) - ord('0')
                 else:
                     hexc |= ord(c) - ord('A') + 0XA
